@@ -45,8 +45,47 @@ func c20(r *core.Run) {
 		r.OK("C20.GATE", "pebble.Open#sites", opens[0].call.Pos(), "exactly one production call site: "+core.FuncName(opens[0].fn))
 	}
 	for _, s := range opens {
-		c20Ctor(r, s.fn, s.call)
+		fn, call := s.fn, s.call
+		// the open may live in a helper of the constructor (retry loop extracted): the guard is then judged in the
+		// caller, with the helper call standing for the open
+		for d := 0; d < 2 && !hasProtectedListTest(fn); d++ {
+			var sites []site
+			for _, caller := range p.Funcs {
+				if !p.IsProdFunc(caller) || caller == fn {
+					continue
+				}
+				for _, ci := range core.Calls(caller, func(_ string, c *ssa.CallCommon) bool { return core.StaticCallee(c) == fn }) {
+					sites = append(sites, site{caller, ci})
+				}
+			}
+			if len(sites) != 1 {
+				break
+			}
+			fn, call = sites[0].fn, sites[0].call
+		}
+		c20Ctor(r, fn, call)
 	}
+}
+
+// hasProtectedListTest: fn tests something against the elements of a constant list of strings (in a loop, or through
+// slices.ContainsFunc).
+func hasProtectedListTest(fn *ssa.Function) bool {
+	found := false
+	core.InstrsOf(fn, func(in ssa.Instruction) {
+		switch x := in.(type) {
+		case *ssa.IndexAddr:
+			if strs, ok := stringElems(x.X); ok && len(strs) > 2 {
+				found = true
+			}
+		case *ssa.Call:
+			if strings.HasPrefix(core.CalleeName(&x.Call), "slices.ContainsFunc") && len(x.Call.Args) == 2 {
+				if strs, ok := stringElems(x.Call.Args[0]); ok && len(strs) > 2 {
+					found = true
+				}
+			}
+		}
+	})
+	return found
 }
 
 func c20Ctor(r *core.Run, fn *ssa.Function, open ssa.CallInstruction) {
@@ -59,6 +98,8 @@ func c20Ctor(r *core.Run, fn *ssa.Function, open ssa.CallInstruction) {
 		p, d  ssa.Value
 		rej   int
 		inner *ssa.Function
+		whole bool // the test covers the whole list by itself (library call), no loop to reason about
+		pArg  ssa.Value // the path operand as written in the test call (a captured variable's load inside a closure)
 	}
 	var guards []guard
 	for _, b := range fn.Blocks {
@@ -92,6 +133,40 @@ func c20Ctor(r *core.Run, fn *ssa.Function, open ssa.CallInstruction) {
 		}
 		switch x := base.(type) {
 		case *ssa.Call:
+			// slices.ContainsFunc(list, func(d string) bool { return test(p, d) }): the library walks the whole list
+			if strings.HasPrefix(core.CalleeName(&x.Call), "slices.ContainsFunc") && len(x.Call.Args) == 2 {
+				strs, isConst := stringElems(x.Call.Args[0])
+				cl := closureFunc(x.Call.Args[1])
+				if !isConst || cl == nil || len(cl.Params) != 1 {
+					continue
+				}
+				var tcall *ssa.Call
+				for _, ret := range core.Returns(cl) {
+					if c, ok := ret.Results[0].(*ssa.Call); ok {
+						tcall = c
+					}
+				}
+				if tcall == nil || len(tcall.Call.Args) != 2 {
+					continue
+				}
+				rej := 0
+				if neg {
+					rej = 1
+				}
+				var pv, dv, praw ssa.Value
+				for _, a := range tcall.Call.Args {
+					if a == ssa.Value(cl.Params[0]) {
+						dv = a
+					} else {
+						pv, praw = core.Resolve(a), a
+					}
+				}
+				if pv == nil || dv == nil {
+					continue
+				}
+				guards = append(guards, guard{ifi: ifi, list: strs, test: tcall, p: pv, d: dv, rej: rej, inner: core.StaticCallee(&tcall.Call), whole: true, pArg: praw})
+				continue
+			}
 			if !consider(x.Call.Args) {
 				continue
 			}
@@ -124,7 +199,18 @@ func c20Ctor(r *core.Run, fn *ssa.Function, open ssa.CallInstruction) {
 			r.Check(have[d], "C20.GATE", fnm+"#protected("+d+")", g.ifi.Pos(), "directory is in the protected list", "confirmed protected directory "+d+" is no longer in the list")
 		}
 		// reject edge must not reach Open; loop must dominate Open
-		ok, why := core.ForAllGuard(g.ifi, g.rej, open.Block())
+		forAll := func(sink *ssa.BasicBlock) (bool, string) {
+			if !g.whole {
+				return core.ForAllGuard(g.ifi, g.rej, sink)
+			}
+			cv := g.ifi.Cond
+			ok1, n1, path := core.MustPass(fn, sink, func(cond ssa.Value) (bool, bool) { return cond == cv, g.rej == 1 })
+			if ok1 && n1 > 0 {
+				return true, ""
+			}
+			return false, "the list test can be bypassed (" + core.FmtPath(path) + ")"
+		}
+		ok, why := forAll(open.Block())
 		r.Check(ok, "C20.GATE", fnm+"#open-after-guard", open.Pos(), "pebble.Open is reachable only after the whole protected list failed the containment test", "pebble.Open is reachable without the protected-directory check: "+why)
 		// reject edge leads to an error return (non-nil error, nil scanner)
 		rejBlock := g.ifi.Block().Succs[g.rej]
@@ -137,10 +223,15 @@ func c20Ctor(r *core.Run, fn *ssa.Function, open ssa.CallInstruction) {
 		// other file-system effects on the path before the guard
 		core.InstrsOf(fn, func(in ssa.Instruction) {
 			if core.IsCallTo(in, "os.Stat", "os.MkdirAll", "os.Mkdir", "os.Create", "os.OpenFile") {
-				ok2, why2 := core.ForAllGuard(g.ifi, g.rej, in.Block())
+				ok2, why2 := forAll(in.Block())
 				r.Check(ok2, "C20.GATE", fnm+"#"+core.CalleeName(core.CallOf(in))+"-after-guard", in.Pos(), "file-system access to the database path happens after the guard", "file-system access before the protected-directory check: "+why2)
 			}
 		})
+		if g.whole {
+			c20ProvenanceAt(r, fn, g.p, fnm, g.ifi.Block())
+			c20Boundary(r, fn, g.test, g.pArg, g.d, g.inner, fnm)
+			continue
+		}
 		c20Provenance(r, fn, g.p, fnm)
 		c20Boundary(r, fn, g.test, g.p, g.d, g.inner, fnm)
 	}
@@ -313,6 +404,13 @@ func c20Provenance(r *core.Run, fn *ssa.Function, pv ssa.Value, fnm string) {
 	} else {
 		why = c.resolvedOf(fn, pv, core.Use{At: at}, 0)
 	}
+	r.Check(why == "", "C20.RESOLVED", fnm+"#guarded-path", pv.Pos(), "the compared path is absolute and symlink-resolved on every incoming path", "the path compared against the protected list is not the location the database would occupy: "+why)
+}
+
+// c20ProvenanceAt: as c20Provenance, with the use site given (the block of the list test).
+func c20ProvenanceAt(r *core.Run, fn *ssa.Function, pv ssa.Value, fnm string, at *ssa.BasicBlock) {
+	c := &c20ctx{r: r}
+	why := c.resolvedOf(fn, pv, core.Use{At: at}, 0)
 	r.Check(why == "", "C20.RESOLVED", fnm+"#guarded-path", pv.Pos(), "the compared path is absolute and symlink-resolved on every incoming path", "the path compared against the protected list is not the location the database would occupy: "+why)
 }
 
